@@ -257,6 +257,18 @@ def handle : Handler
         s!"VIOL close-while-stream-waits-on-not-ready-connection:{",".intercalate bad} model={" ".intercalate expect}"
     else if kind = "cstream" then cstreamVerdict _d mode _n out
     else "BAD c16 line"
+  | ["cidle", mode, _d], out =>
+    -- the channel fell back to IDLE between two calls (C16_wait_connects_whenever_idle): the second call is established
+    -- at once, with or without a deadline
+    let expect := ["first=ok", "idle=t", "second=ok", "slow=0"]
+    if out = expect && Conn.secondCall .always = .ready then s!"OK nt b=idle-again-{mode}"
+    else s!"VIOL stream-on-idle-again-connection:{",".intercalate (out.filter (fun t => !expect.contains t))} model={" ".intercalate expect}"
+  | ["cunreach", mode, _d], out =>
+    -- unreachable target, call with a deadline: the call ends (C16_wait_returns_when_ctx_ends)
+    match out with
+    | ["ended=t", c] =>
+      if c = "code=code14" || c = "code=code4" then s!"OK nt b=unreachable-{mode}" else s!"DIFF model=ended=t,code=code14|code4"
+    | _ => s!"VIOL call-with-deadline-to-unreachable-target-never-ends:{",".intercalate out} model=ended=t"
   | ["connrace", _seed, _n], out =>
     -- Close racing Stream on one real AdaptedClientConn (C16_conn_close_stream_safe / _closed_is_final)
     let expect := ["bad=0", "panic=0", "slow=0", "after=unavail"]
